@@ -136,6 +136,8 @@ Definition d_sprog (s : sx) : option sprog :=
   | LL [SS "sub"; x; y] => x <- d_nat x ;; y <- d_nat y ;; ret (PSub x y)
   | LL [SS "subf"; x; y] => x <- d_nat x ;; y <- d_nat y ;; ret (PSub x y)      (* the same, under free arithmetics *)
   | LL [SS "arr"; x] => x <- d_nat x ;; ret (PArr x)
+  | LL [SS "badiadd"; x] => x <- d_nat x ;; ret (PFillN x [] false)    (* a refused in-place addition (incompatible operand):
+                                                                          like an empty batch, it leaves the statistics alone *)
   | _ => None end.
 Definition d_c14 (s : sx) : option c14 :=
   o <- (x <- fld "ops" s ;; d_list d_sprog x) ;; e <- (x <- fld "eps" s ;; d_q x) ;; ret (Build_c14 o e).
